@@ -48,11 +48,26 @@ def install_assert_solver(eng):
             if cv == 'sat': raise E.Inconclusive('solver-disagreement', 'z3 unsat but cvc5 sat on the integer encoding of: ' + msg)
             return
         if r == 'sat':
+            # FP operations are uninterpreted in this encoding, so its model is only a CANDIDATE: evaluate the real (bit-precise) path
+            # condition and assertion under the candidate's input values; only a candidate that really violates the assertion is reported
             s2 = z3.Solver()
             for bvvar, val in info.items(): s2.add(bvvar == val)
-            s2.check()
-            st.log.append(('route', msg, 'int-encoding', 'sat', round(time.time() - t0, 2)))
-            raise E.Bug('assert', msg + ' (counterexample from the integer encoding)', s2.model(), bad)
+            s2.check(); cand = s2.model()
+            sub = [(bvvar, z3.BitVecVal(val, bvvar.size())) for bvvar, val in info.items()]
+            real = z3.simplify(z3.substitute(z3.And(*(list(st.pc) + [bad])), *sub)) if sub else None
+            if real is not None and z3.is_true(real):
+                st.log.append(('route', msg, 'int-encoding', 'sat (candidate confirmed bit-precisely)', round(time.time() - t0, 2)))
+                raise E.Bug('assert', msg + ' (counterexample from the integer encoding, confirmed in the BV/FP theory)', cand, bad)
+            # 3. spurious candidate: the obligation goes back to the bit-precise theory with a long time limit
+            eng.timeout_ms = 240000 if TIER == 'quick' else 1200000; eng.fresh_only = True
+            try:
+                try: m = eng.check(st, bad)
+                finally: eng.timeout_ms = save
+            except E.Inconclusive:
+                raise E.Inconclusive('unknown', 'obligation undecided: the integer encoding only yields spurious candidates (uninterpreted FP) and the bit-precise theory ran out of time: ' + msg)
+            st.log.append(('route', msg, 'native-bvfp-long', 'sat' if m is not None else 'unsat', round(time.time() - t0, 2)))
+            if m is not None: raise E.Bug('assert', msg, m, bad)
+            return
         raise E.Inconclusive('unknown', 'obligation undecided (%s: %s): %s' % (r, info, msg))
     eng.assert_solver = solver
 common.register_models('c19_assert_solver', install_assert_solver)
